@@ -45,6 +45,9 @@ func c04Kinds() []c04Kind {
 			[]string{"", "max=9007199254740992", "min=-9007199254740992", "min=9007199254740993", "max=9223372036854775806"}},
 		{"uint64", reflect.TypeOf(uint64(0)), []c04Val{{uint64(0), 0, false}, {uint64(math.MaxUint64), uint64(math.MaxUint64), false}, {uint64(math.MaxUint64 - 1), uint64(math.MaxUint64 - 1), false}, {uint64(9007199254740993), uint64(9007199254740993), false}},
 			[]string{"", "max=18446744073709551614", "min=18446744073709551615", "max=9007199254740992"}},
+		{"named uint16", reflect.TypeOf(MyU16(0)), []c04Val{{MyU16(0), 0, false}, {MyU16(2), 2, false}, {MyU16(5), 5, false}}, numTags},
+		{"named float32", reflect.TypeOf(MyF32(0)), []c04Val{{MyF32(0), 0.0, false}, {MyF32(2.5), 2.5, false}, {MyF32(-1.5), -1.5, false}}, numTags},
+		{"named int64", reflect.TypeOf(MyI64(0)), []c04Val{{MyI64(0), 0, false}, {MyI64(2), 2, false}, {MyI64(-1), -1, false}}, numTags},
 		{"float64", reflect.TypeOf(0.0), []c04Val{{0.0, 0.0, false}, {2.5, 2.5, false}, {5.5, 5.5, false}, {-1.5, -1.5, false}}, numTags},
 		{"string", reflect.TypeOf(""), []c04Val{{"", "", false}, {"s", "s", false}}, []string{"", "required", "nonzero", "min=1"}},
 		{"duration", reflect.TypeOf(time.Duration(0)), []c04Val{{time.Duration(0), "0s", false}, {3 * time.Second, "3s", false}, {time.Second, 1, false}, {2 * time.Minute, "2m", false}, {-time.Second, "-1s", false}, {300 * time.Millisecond, "300ms", false}, {1500 * time.Millisecond, 1.5, false}},
@@ -559,7 +562,7 @@ func (p dPorts) InitDefaults() { p["fallback"] = 13 }
 type c04CatCase struct {
 	Name    string
 	Target  func() interface{}
-	Cfg     M
+	Cfg     interface{} // M or L
 	WantErr bool
 }
 
@@ -580,6 +583,18 @@ func c04Catalogue() *core.Space {
 	type D2 struct{ X dBad }
 	type D3 struct{ X *dBad }
 	type D4 struct{ L []dBad }
+	type IL1 struct {
+		L     []int `config:",inline" validate:"required"`
+		Other string
+	}
+	type IL2 struct {
+		L []int `config:",inline" validate:"nonzero"`
+	}
+	type IL3 struct {
+		N struct {
+			L []string `config:",inline" validate:"required"`
+		}
+	}
 	type P1 struct{ L []vPtrInt }
 	type P2 struct{ M map[string]vPtrInt }
 	type P3 struct{ A [2]vPtrInt }
@@ -631,6 +646,11 @@ func c04Catalogue() *core.Space {
 		{"map InitDefaults adds an entry its Validate rejects, pre-allocated map", func() interface{} { return &D6{Weights: dWeights{}} }, M{"weights": M{"a": 3}}, true},
 		{"map InitDefaults invalid Validate entry replaced by a valid setting", func() interface{} { return &D6{Weights: dWeights{}} }, M{"weights": M{"fallback": 3}}, false},
 		{"map InitDefaults adds a valid entry", func() interface{} { return &D7{} }, M{"limits": M{"custom": M{"max": 5}}}, false},
+		{"inlined list with required: no list entries in the config", func() interface{} { return &IL1{} }, M{"other": "x"}, true},
+		{"inlined list with required: entries present", func() interface{} { return &IL1{} }, L{1, 2}, false},
+		{"inlined list with nonzero: pre-filled empty list, empty config", func() interface{} { return &IL2{L: []int{}} }, M{}, true},
+		{"inlined list with nonzero: entries present", func() interface{} { return &IL2{} }, L{3}, false},
+		{"inlined list with required, nested: object without entries", func() interface{} { return &IL3{} }, M{"n": M{"x": 1}}, true},
 		{"pointer-receiver Validate: field from config rejected", func() interface{} { return &P5{} }, M{"x": 13}, true},
 		{"pointer-receiver Validate: pre-filled field rejected", func() interface{} { return &P5{X: 13} }, M{"y": 1}, true},
 		{"pointer-receiver Validate: slice element from config rejected", func() interface{} { return &P1{} }, M{"l": L{1, 13}}, true},
